@@ -105,7 +105,18 @@ class WARCRecorder(object):
 
     def _check_journals_and_maybe_raise(self):
         '''Check if any journal files exist and raise an error.'''
-        files = list(glob.glob(self._prefix_filename + '*-wpullinc'))
+        # The prefix is a literal file name, not a glob pattern: match it
+        # literally (a pattern would also skip names starting with a dot).
+        dir_path, name_prefix = os.path.split(self._prefix_filename)
+
+        if not os.path.isdir(dir_path or os.curdir):
+            return
+
+        files = [
+            os.path.join(dir_path, name)
+            for name in sorted(os.listdir(dir_path or os.curdir))
+            if name.startswith(name_prefix) and name.endswith('-wpullinc')
+        ]
 
         if files:
             raise OSError('WARC file {} is incomplete.'.format(files[0]))
